@@ -39,11 +39,30 @@ Definition is_unsub (c : cmd) : bool := match c with CUnsubscribe _ => true | _ 
 Definition ev_ok_b (o : sid) (ev : event) : bool :=
   match ev with ECmd b c => cmd_loud_for (N.eqb b o) c && Nat.leb (cmd_depth c) max_batch_nest | _ => true end.
 
+(* the longest prefix of plain commands of a BATCH, and the rest *)
+Fixpoint plain_prefix (l : list cmd) : list cmd :=
+  match l with [] => [] | c :: r => if cmd_plain c then c :: plain_prefix r else [] end.
+Fixpoint plain_rest (l : list cmd) : list cmd :=
+  match l with [] => [] | c :: r => if cmd_plain c then plain_rest r else l end.
+
+Lemma plain_split : forall l, l = plain_prefix l ++ plain_rest l.
+Proof. induction l as [|c l IH]; cbn; [reflexivity|]. destruct (cmd_plain c); cbn; [now rewrite <- IH|reflexivity]. Qed.
+
+Lemma plain_prefix_plain : forall l, forallb cmd_plain (plain_prefix l) = true.
+Proof. induction l as [|c l IH]; cbn; [reflexivity|]. destruct (cmd_plain c) eqn:E; cbn; [now rewrite E|reflexivity]. Qed.
+
+(* BATCH: plain commands, then tail commands, an unsubscribe among them *)
+Definition batch_tail_b (c : cmd) : bool :=
+  match c with
+  | CBatch l => forallb tail_cmd (plain_rest l) && snd (client_cmd empty_matcher c)
+  | _ => false
+  end.
+
 (* a sufficient test of ev_clean that does not look at the state: no explicit GETDATA at all (cmd_covered itself compares
    filters, which MatchOps does not make decidable) *)
 Definition ev_clean_b (o : sid) (ev : event) : bool :=
   match ev with
-  | ECmd b c => if N.eqb b o then cmd_subs_ok_b c && (cmd_plain c || is_unsub c) else true
+  | ECmd b c => if N.eqb b o then cmd_subs_ok_b c && (cmd_plain c || is_unsub c || batch_tail_b c) else true
   | _ => true
   end.
 
@@ -58,9 +77,16 @@ Proof.
   intros o ev w H1.
   destruct ev as [| |b c]; cbn [ev_clean ev_clean_b] in *; auto. intros E. subst b. rewrite N.eqb_refl in H1.
   apply andb_true_iff in H1 as [Ha Hb]. split; [now apply cmd_subs_ok_b_spec|].
-  apply orb_true_iff in Hb as [Hb|Hb]; [left|right].
-  - split; [now apply nounsub_of_plain|]. intros ss _. now apply covered_of_plain.
-  - destruct c; try discriminate. eauto.
+  apply orb_true_iff in Hb as [Hb|Hb]; [apply orb_true_iff in Hb as [Hb|Hb]|].
+  - left. split; [now apply nounsub_of_plain|]. intros ss _. now apply covered_of_plain.
+  - right. left. destruct c; try discriminate. eauto.
+  - right. right. destruct c as [| | | | | | |l]; try discriminate. cbn [batch_tail_b] in Hb.
+    apply andb_true_iff in Hb as [Hb1 Hb2].
+    exists (plain_prefix l), (plain_rest l). split; [f_equal; apply plain_split|].
+    split; [exact Hb2|]. pose proof (plain_prefix_plain l) as Hpp.
+    split; [|split; [exact Hb1|]].
+    + rewrite forallb_forall in *. intros x Hx. apply nounsub_of_plain. now apply Hpp.
+    + intros ss _. apply covered_of_plain. exact Hpp.
 Qed.
 
 Lemma ok_wrun_b_spec : forall o evs w, forallb (ev_ok_b o) evs = true -> forallb (ev_clean_b o) evs = true -> ok_wrun fx o w evs.
